@@ -23,6 +23,11 @@ def _wr_traces(rep, pid, tier):
     rep.add_tlc("MC_Bundle(variants+plain)", r2)
     seen = set(json.dumps(o, sort_keys=True) for t, o in r.lines)
     r.lines += [(t, o) for t, o in r2.lines if json.dumps(o, sort_keys=True) not in seen]
+    # twins: one response (status, header fields, body) under two URLs, next to others
+    r3 = tlc("MC_Bundle", "SPECIFICATION Spec\nCONSTANTS MaxEx = %d\nTmpl = {1, 2, 3, 13, 14}\nINVARIANTS WrittenIsWellFormed ReadsBack\nCHECK_DEADLOCK FALSE\n" % (mx + 1), pid + "/mc3", timeout=3000)
+    rep.add_tlc("MC_Bundle(twin responses)", r3)
+    seen = set(json.dumps(o, sort_keys=True) for t, o in r.lines)
+    r.lines += [(t, o) for t, o in r3.lines if json.dumps(o, sort_keys=True) not in seen]
     vp = os.path.join(wd, "vec.txt")
     nref = 0
     with open(vp, "w") as f:
